@@ -383,6 +383,7 @@ sqf::runtime::runtime::result sqf::runtime::runtime::execute(sqf::runtime::runti
             if (m_is_exit_requested)
             {
                 m_contexts.clear();
+                m_context_active = {};
                 m_state = state::empty;
             }
             m_run_atomic = false;
